@@ -153,6 +153,8 @@ def worker_case(draw, *, brokers=("mem",), max_jobs=5, converters=("basic", "pyd
         "worker": {"tasks_limit": draw(st.sampled_from(list(tasks_limits)))},
         "jobs": jobs,
     }
+    if draw(st.integers(0, 3)) == 0:
+        case["tz"] = draw(st.sampled_from(["EST5", "IST-5:30", "NZT-13"]))  # host time zone other than UTC
     if broker != "mem":
         case["lat"] = draw(st.lists(st.sampled_from([0.0, 0.0, 0.001, 0.002, 0.005]), max_size=30))
     return finalize(case)
